@@ -1125,8 +1125,13 @@ class Printer:
         t = s[0]
         if self.layout == "comments":
             self.emit(pad + "// c")
+        typed = self.layout == "typed"
         if t == "let":
-            self.emit(pad + "let " + s[1] + (" = " + self.top(s[2]) if s[2] is not None else "") + ";", s)
+            ann = ""
+            if typed:
+                # annotations are erased at run time: any annotation is semantically neutral
+                ann = [": any", ": number | string", ": any[]", ": T"][len(s[1]) % 3]
+            self.emit(pad + "let " + s[1] + ann + (" = " + self.top(s[2]) if s[2] is not None else "") + ";", s)
         elif t == "expr":
             self.emit(pad + self.top(s[1]) + ";", s)
         elif t == "implicit":
@@ -1159,12 +1164,26 @@ class Printer:
         elif t == "return":
             self.emit(pad + "return" + (" " + self.top(s[1]) if s[1] is not None else "") + ";", s)
         elif t == "fn":
-            self.emit(pad + "fn " + s[1] + "(" + ", ".join(s[2]) + ") {", s)
+            if typed:
+                self.emit(pad + "fn " + s[1] + "<T>(" + ", ".join(p + (": T" if k % 2 else ": any") for k, p in enumerate(s[2])) + ") -> any {", s)
+            else:
+                self.emit(pad + "fn " + s[1] + "(" + ", ".join(s[2]) + ") {", s)
             self.block(s[3], ind + 1)
             self.emit(pad + "}")
         elif t == "class":
             self.emit(pad + "class " + s[1] + (" : " + s[2] if s[2] else "") + " {", s)
+            if typed:
+                # member declarations for the fields the initialiser assigns anyway, in reverse order
+                for kind, name, params, body in s[3]:
+                    if name == "init" and kind != "static":
+                        for f in reversed(declared_fields(body)):
+                            self.emit(pad + "  " + f + ": any;")
             for kind, name, params, body in s[3]:
+                if typed:
+                    self.emit(pad + "  " + ("static " if kind == "static" else "") + name + "(" + ", ".join(p + ": any" for p in params) + ")" + (" -> any" if name != "init" else "") + " {")
+                    self.block(body, ind + 2)
+                    self.emit(pad + "  }")
+                    continue
                 self.emit(pad + "  " + ("static " if kind == "static" else "") + name + "(" + ", ".join(params) + ") {")
                 self.block(body, ind + 2)
                 self.emit(pad + "  }")
